@@ -74,6 +74,7 @@ var imports = map[string][]importSpec{
 		{"C08", `^C08\.range$`, `IsValid`, "encoders gate on IsValid: a validity predicate that rejects an in-range value makes it unencodable, one that accepts an out-of-range value yields an encoding the decoder rejects"},
 	},
 	"C09": {
+		{"C02", `^C02\.dispatch$`, `knx/knxnet\.(Conn|Disc)`, "connect, connection-state and disconnect frames reach the client as what they are"},
 		{"C02", `^C02\.layout$`, `knxnet\.(ConnRes|ConnReq|ConnStateRes|ConnStateReq|DiscReq|DiscRes)`, "connect, connection-state and disconnect frames are decoded as the gateway sent them (a connect response is only usable with its endpoint decoded under status 0)"},
 		{"C02", `^C02\.(layout|dispatch)$`, `^knxnet\.UnpackHeader|^knxnet\.Unpack `, "every frame is received through the header decoder and the service dispatcher"},
 		{"C10", `^C10\.K5$`, `requestConn Lock`, "a reconnect must not block for ever on the sender lock"},
@@ -84,9 +85,11 @@ var imports = map[string][]importSpec{
 		{"C03", `^C03\.S6\.timeout$`, ``, "Send returns within the response timeout, so Close is never held up by a sender"},
 	},
 	"C11": {
+		{"C02", `^C02\.dispatch$`, `knx/cemi\.|^cemi\.`, "the message code octet: every L_Data type reports the code its frames are dispatched by"},
 		{"C01", `^C01\.[bc]$`, `^(\(\*)?cemi\.`, "decoding extracts exactly the transmitted fields: the decoded frame owns its bytes and the decoder stays within its input"},
 	},
 	"C12": {
+		{"C02", `^C02\.dispatch$`, `knx/cemi\.|^cemi\.`, "only indications surface: a confirmation must not be decoded as an indication"},
 		{"C14", `^C14\.Q2$`, `transmits`, "a group event handed to a group router is transmitted"},
 		{"C02", `^C02\.(layout|dispatch)$`, `^knxnet\.UnpackHeader|^knxnet\.Unpack `, "every frame is received through the header decoder and the service dispatcher"},
 		{"C11", `^C11\.(encode|decode)$`, ``, "group events are carried by L_Data frames: command, addresses, flags and payload sit where the decoder of the receiving client looks for them"},
@@ -96,21 +99,26 @@ var imports = map[string][]importSpec{
 		{"C01", `^C01\.c$`, kBothPaths, "the payload of a received event must not change after delivery"},
 	},
 	"C13": {
+		{"C02", `^C02\.dispatch$`, `knx/knxnet\.Routing|^knxnet\.Unpack `, "a routing-busy datagram reaches the client as a busy indication"},
 		{"C14", `^C14\.Q6$`, `pushInbound`, "busy indications are taken in by the loop that delivers inbound telegrams: that loop must never block on the application"},
 	},
 	"C14": {
+		{"C02", `^C02\.dispatch$`, `knx/knxnet\.Routing|^knxnet\.Unpack `, "lost, busy and routing indications reach the client as what they are"},
 		{"C02", `^C02\.(layout|dispatch)$`, `^knxnet\.UnpackHeader|^knxnet\.Unpack `, "every frame is received through the header decoder and the service dispatcher"},
 		{"C16", `^C16\.T[12]$`, `serveUDPSocket`, "every routing indication the socket receives reaches the client: buffer large enough, every decoded frame forwarded once"},
 		{"C13", `^C13\.P3$`, `lock on every path|one timer release`, "the send lock taken for a busy period is released exactly once: otherwise no Send ever gets through again (or the process dies unlocking twice)"},
 		{"C01", `^C01\.c$`, kRouterPath, "a delivered indication must not change afterwards"},
 	},
 	"C16": {
+		{"C02", `^C02\.dispatch$`, `knx/knxnet\.`, "every well-formed frame is surfaced as the service it is"},
+		{"C01", `^C01\.e$`, `UnpackHeader accepts exactly`, "only well-formed frames are surfaced: a frame with a foreign header length or protocol version is dropped"},
 		{"C02", `^C02\.(layout|dispatch)$`, `^knxnet\.UnpackHeader|^knxnet\.Unpack `, "every frame is received through the header decoder and the service dispatcher"},
 		{"C01", `^C01\.c$`, ``, "a frame surfaced on Inbound owns its bytes: the receiver reuses its buffer for the next datagram"},
 		{"C15", `^C15\.size-pack$`, ``, "Send emits one complete well-formed frame: the encoder determines every byte of the buffer it is given, from no state shared between calls"},
 		{"C09", `^C09\.H1$`, `keeps the caller's other settings`, "the connect request advertises the local endpoint when configured to: the configuration normaliser hands SendLocalAddress through"},
 	},
 	"C17": {
+		{"C04", `^C04\.R2$`, ``, "a telegram is handed over once, when it is accepted: a repetition is not handed over again"},
 		{"C02", `^C02\.(layout|dispatch)$`, `^knxnet\.UnpackHeader|^knxnet\.Unpack `, "every frame is received through the header decoder and the service dispatcher"},
 		{"C04", `^C04\.R7$`, ``, "hand-over to Inbound: offered once, parked once, never dropped or duplicated"},
 		{"C14", `^C14\.Q6$`, ``, "the same for the router client"},
@@ -118,6 +126,7 @@ var imports = map[string][]importSpec{
 		{"C01", `^C01\.c$`, kBothPaths, "a telegram waiting for the application must not be overwritten by the next datagram"},
 	},
 	"C20": {
+		{"C01", `^C01\.e$`, `UnpackHeader accepts exactly`, "only well-formed frames are surfaced: a frame with a foreign header length or protocol version is dropped"},
 		{"C16", `^C16\.T5$`, `HostInfoFromAddress`, "the description request advertises the socket's own endpoint: address and port are those of the socket"},
 		{"C02", `^C02\.layout$`, `knxnet\.(SearchRes|DescriptionRes|DeviceInformationBlock|HostInfo|ServiceFamily)`, "the returned responses carry what the server sent"},
 		{"C02", `^C02\.(layout|dispatch)$`, `^knxnet\.UnpackHeader|^knxnet\.Unpack `, "every frame is received through the header decoder and the service dispatcher"},
